@@ -396,7 +396,25 @@ pub fn generate(
                                         map.insert(::std::clone::Clone::clone(&field_name), value.unwrap_or_default());
                                         #crate_name::Response::new(#crate_name::Value::Object(map))
                                     })
-                                    .unwrap_or_else(|err| #crate_name::Response::from_errors(::std::vec![err]));
+                                    .unwrap_or_else(|err| {
+                                        // A failing event nulls the root field when its type is nullable,
+                                        // and the whole data otherwise.
+                                        let non_null = schema_env
+                                            .registry
+                                            .types
+                                            .get(::std::convert::AsRef::<str>::as_ref(&parent_type))
+                                            .and_then(|ty| ty.field_by_name(field.node.name.node.as_str()))
+                                            .is_none_or(|meta_field| meta_field.ty.ends_with('!'));
+                                        if non_null {
+                                            #crate_name::Response::from_errors(::std::vec![err])
+                                        } else {
+                                            let mut map = #crate_name::indexmap::IndexMap::new();
+                                            map.insert(::std::clone::Clone::clone(&field_name), #crate_name::Value::Null);
+                                            let mut resp = #crate_name::Response::new(#crate_name::Value::Object(map));
+                                            resp.errors.push(err);
+                                            resp
+                                        }
+                                    });
 
                                     use ::std::iter::Extend;
                                     resp.errors.extend(::std::mem::take(&mut *query_env.errors.lock().unwrap()));
